@@ -515,6 +515,9 @@ func (fx *FX) specCall(x *SX, env *SEnv, cur, old *State) Val {
 			r = App("sbase", v.T)
 		}
 		return Val{T: fmt.Sprintf("(< (epoch %s) %s)", r, env.nowOld), S: SBool}
+	case "off":
+		v := ev(0)
+		return Val{T: App("soff", v.T), S: SInt}
 	case "fzero":
 		return Val{T: "0.0", S: "Real"}
 	case "deref":
